@@ -2,7 +2,8 @@
    Lane convention (Model/C10AvxLanes.v): a 64-bit lane is its signed value; `wadd 64`, `wsub 64`, `shl 64`, `asr`
    are the wrapping i64 operations of the scalar reference kernels (Model/Znx.v). *)
 From PV Require Import Base.MachineInt Model.Znx Model.C10AvxLanes
-  Proofs.C10Avx Proofs.C10Kernels Proofs.C10Simd Model.C07Ntt120 Proofs.C10Ntt.
+  Proofs.C10Avx Proofs.C10Kernels Proofs.C10Simd Model.C07Ntt120 Proofs.C10Ntt
+  Model.Limbs Model.Ring Proofs.C10Ring Proofs.C10Vec.
 Open Scope Z_scope.
 
 Theorem C10_land_mask_mod : forall b x : Z, 0 <= b -> Z.land x (2 ^ b - 1) = x mod 2 ^ b.
@@ -141,6 +142,89 @@ Theorem C10_avx_vec_middle_step : forall (ov : bool) (b lsh : Z) (l : list (Z * 
 Proof. exact avx_vec_middle_step. Qed.
 Print Assumptions C10_avx_vec_middle_step.
 
+(* ---- vector level: every normalisation / mul kernel on whole slices = map of the scalar kernel, every length ---- *)
+Theorem C10_avx_vec_first_step_carry_only : forall (b lsh : Z), 1 <= b <= 63 -> 0 <= lsh < b -> forall (l : list (Z)),
+  simd_map (first_step_carry_only_avx b lsh) (first_step_carry_only 64 b lsh) l = map (first_step_carry_only 64 b lsh) l.
+Proof. exact avx_vec_first_step_carry_only. Qed.
+Print Assumptions C10_avx_vec_first_step_carry_only.
+
+Theorem C10_avx_vec_first_step_assign : forall (b lsh : Z), 1 <= b <= 63 -> 0 <= lsh < b -> forall (l : list (Z)),
+  simd_map (first_step_assign_avx b lsh) (first_step_assign 64 b lsh) l = map (first_step_assign 64 b lsh) l.
+Proof. exact avx_vec_first_step_assign. Qed.
+Print Assumptions C10_avx_vec_first_step_assign.
+
+Theorem C10_avx_vec_first_step : forall (b lsh : Z), 1 <= b <= 63 -> 0 <= lsh < b -> forall (ov : bool) (l : list (Z * Z)),
+  simd_map (fun t => first_step_avx ov b lsh (fst t) (snd t)) (fun t => first_step 64 ov b lsh (fst t) (snd t)) l
+  = map (fun t => first_step 64 ov b lsh (fst t) (snd t)) l.
+Proof. exact avx_vec_first_step. Qed.
+Print Assumptions C10_avx_vec_first_step.
+
+Theorem C10_avx_vec_middle_step_carry_only : forall (b lsh : Z), 1 <= b <= 63 -> 0 <= lsh < b -> forall (l : list (Z * Z)),
+  simd_map (fun t => middle_step_carry_only_avx b lsh (fst t) (snd t)) (fun t => middle_step_carry_only 64 b lsh (fst t) (snd t)) l
+  = map (fun t => middle_step_carry_only 64 b lsh (fst t) (snd t)) l.
+Proof. exact avx_vec_middle_step_carry_only. Qed.
+Print Assumptions C10_avx_vec_middle_step_carry_only.
+
+Theorem C10_avx_vec_middle_step_assign : forall (b lsh : Z), 1 <= b <= 63 -> 0 <= lsh < b -> forall (l : list (Z * Z)),
+  simd_map (fun t => middle_step_assign_avx b lsh (fst t) (snd t)) (fun t => middle_step_assign 64 b lsh (fst t) (snd t)) l
+  = map (fun t => middle_step_assign 64 b lsh (fst t) (snd t)) l.
+Proof. exact avx_vec_middle_step_assign. Qed.
+Print Assumptions C10_avx_vec_middle_step_assign.
+
+Theorem C10_avx_vec_middle_step_sub : forall (b lsh : Z), 1 <= b <= 63 -> 0 <= lsh < b -> forall (l : list (Z * Z * Z)),
+  simd_map (fun t => middle_step_sub_avx b lsh (fst (fst t)) (snd (fst t)) (snd t))
+           (fun t => middle_step_sub 64 b lsh (fst (fst t)) (snd (fst t)) (snd t)) l
+  = map (fun t => middle_step_sub 64 b lsh (fst (fst t)) (snd (fst t)) (snd t)) l.
+Proof. exact avx_vec_middle_step_sub. Qed.
+Print Assumptions C10_avx_vec_middle_step_sub.
+
+Theorem C10_avx_vec_final_step_assign : forall (b lsh : Z), 1 <= b <= 63 -> 0 <= lsh < b -> forall (l : list (Z * Z)),
+  simd_map (fun t => final_step_assign_avx b lsh (fst t) (snd t)) (fun t => final_step_assign 64 b lsh (fst t) (snd t)) l
+  = map (fun t => final_step_assign 64 b lsh (fst t) (snd t)) l.
+Proof. exact avx_vec_final_step_assign. Qed.
+Print Assumptions C10_avx_vec_final_step_assign.
+
+Theorem C10_avx_vec_final_step : forall (b lsh : Z), 1 <= b <= 63 -> 0 <= lsh < b -> forall (ov : bool) (l : list (Z * Z * Z)),
+  simd_map (fun t => final_step_avx ov b lsh (fst (fst t)) (snd (fst t)) (snd t))
+           (fun t => final_step 64 ov b lsh (fst (fst t)) (snd (fst t)) (snd t)) l
+  = map (fun t => final_step 64 ov b lsh (fst (fst t)) (snd (fst t)) (snd t)) l.
+Proof. exact avx_vec_final_step. Qed.
+Print Assumptions C10_avx_vec_final_step.
+
+Theorem C10_avx_vec_final_step_sub : forall (b lsh : Z), 1 <= b <= 63 -> 0 <= lsh < b -> forall (l : list (Z * Z * Z)),
+  simd_map (fun t => final_step_sub_avx b lsh (fst (fst t)) (snd (fst t)) (snd t))
+           (fun t => final_step_sub 64 b lsh (fst (fst t)) (snd (fst t)) (snd t)) l
+  = map (fun t => final_step_sub 64 b lsh (fst (fst t)) (snd (fst t)) (snd t)) l.
+Proof. exact avx_vec_final_step_sub. Qed.
+Print Assumptions C10_avx_vec_final_step_sub.
+
+Theorem C10_avx_vec_extract_digit_addmul : forall (b lsh : Z) (l : list (Z * Z)),
+  1 <= b <= 63 -> 0 <= lsh <= 63 ->
+  simd_map (fun t => extract_digit_addmul_avx b lsh (fst t) (snd t)) (fun t => extract_digit_addmul 64 b lsh (fst t) (snd t)) l
+  = map (fun t => extract_digit_addmul 64 b lsh (fst t) (snd t)) l.
+Proof. exact avx_vec_extract_digit_addmul. Qed.
+Print Assumptions C10_avx_vec_extract_digit_addmul.
+
+Theorem C10_avx_vec_normalize_digit : forall (b : Z) (l : list (Z * Z)),
+  1 <= b <= 63 ->
+  simd_map (fun t => normalize_digit_avx b (fst t) (snd t)) (fun t => normalize_digit 64 b (fst t) (snd t)) l
+  = map (fun t => normalize_digit 64 b (fst t) (snd t)) l.
+Proof. exact avx_vec_normalize_digit. Qed.
+Print Assumptions C10_avx_vec_normalize_digit.
+
+Theorem C10_avx_vec_mul_power_of_two : forall (k : Z) (l : list (Z)),
+  -63 <= k <= 63 -> Forall (in_range 64) l ->
+  simd_map (mul_power_of_two_avx k) (mul_power_of_two 64 k) l = map (mul_power_of_two 64 k) l.
+Proof. exact avx_vec_mul_power_of_two. Qed.
+Print Assumptions C10_avx_vec_mul_power_of_two.
+
+Theorem C10_avx_vec_mul_add_power_of_two : forall (k : Z) (l : list (Z * Z)),
+  -63 <= k <= 63 -> Forall (fun t => in_range 64 (snd t)) l ->
+  simd_map (fun t => mul_add_power_of_two_avx k (fst t) (snd t)) (fun t => mul_add_power_of_two 64 k (fst t) (snd t)) l
+  = map (fun t => mul_add_power_of_two 64 k (fst t) (snd t)) l.
+Proof. exact avx_vec_mul_add_power_of_two. Qed.
+Print Assumptions C10_avx_vec_mul_add_power_of_two.
+
 (* ---- NTT120 (Primes30): Barrett step with mu = floor(2^61/Q), c_from_b_avx2 and b_from_znx64_avx2 lane bodies ---- *)
 Theorem C10_barrett_reduce_eq : forall q tmp : Z, 2 ^ 29 < q < 2 ^ 30 -> 0 <= tmp < 2 ^ 61 ->
   barrett_reduce_avx tmp q (2 ^ 61 / q) = tmp mod q.
@@ -163,6 +247,29 @@ Theorem C10_b_from_znx64_avx_eq_ref : forall q x : Z, 1 <= q < 2 ^ 62 -> in_rang
   b_from_znx64_k_avx q x = b_from_znx64_k q x.
 Proof. exact b_from_znx64_avx_eq_ref. Qed.
 Print Assumptions C10_b_from_znx64_avx_eq_ref.
+
+(* ---- automorphism / switch_ring: the whole vector kernels (index maps, gathers, conditional negation) ---- *)
+Theorem C10_inv_mod_pow2_correct : forall p bits : Z, Z.odd p = true -> 1 <= bits <= 63 ->
+  0 <= inv_mod_pow2 p bits < 2 ^ bits /\ (inv_mod_pow2 p bits * p) mod 2 ^ bits = 1.
+Proof. exact inv_mod_pow2_correct. Qed.
+Print Assumptions C10_inv_mod_pow2_correct.
+
+(* contract of the kernel: n = 2^m (assert), p odd (debug_assert); lengths up to 2^60; any prior content r0 of res *)
+Theorem C10_avx_automorphism_eq_ref : forall (p m : Z) (r0 a : list Z),
+  0 <= m <= 60 -> Z.of_nat (length a) = 2 ^ m -> Z.odd p = true -> in_range 64 p ->
+  length r0 = length a -> Forall (in_range 64) a ->
+  znx_automorphism_avx p r0 a = znx_automorphism_onto 64 p r0 a.
+Proof. exact avx_automorphism_eq_ref. Qed.
+Print Assumptions C10_avx_automorphism_eq_ref.
+
+(* contract: n_in = 2^m and max(n_in, n_out) a multiple of min(n_in, n_out) (the kernel's debug asserts) *)
+Theorem C10_avx_switch_ring_eq_ref : forall (m : Z) (n_out : nat) (r0 a : list Z),
+  0 <= m <= 60 -> Z.of_nat (length a) = 2 ^ m -> (0 < n_out)%nat -> Z.of_nat n_out < 2 ^ 62 ->
+  length r0 = n_out ->
+  (Nat.max (length a) n_out mod Nat.min (length a) n_out = 0)%nat ->
+  znx_switch_ring_avx n_out r0 a = znx_switch_ring n_out r0 a.
+Proof. exact avx_switch_ring_eq_ref. Qed.
+Print Assumptions C10_avx_switch_ring_eq_ref.
 
 (* ---- boundary lanes: i64::MIN, i64::MAX, -1, 2^62 ---- *)
 Definition bnd : list Z := [- 2 ^ 63; 2 ^ 63 - 1; -1; 2 ^ 62].
@@ -194,3 +301,9 @@ Example C10_ex_c_from_b : map (fun x => c_from_b_k_avx 1073479681 x) [0; 2 ^ 64 
 Proof. vm_compute. reflexivity. Qed.
 Example C10_ex_b_from_znx64 : map (b_from_znx64_k_avx 1068236801) bnd = map (b_from_znx64_k 1068236801) bnd.
 Proof. vm_compute. reflexivity. Qed.
+Example C10_ex_automorphism : znx_automorphism_avx (-5) [0; 0; 0; 0; 0; 0; 0; 0] [- 2 ^ 63; 2 ^ 63 - 1; -1; 2 ^ 62; 5; 6; 7; 8]
+                            = znx_automorphism_onto 64 (-5) [0; 0; 0; 0; 0; 0; 0; 0] [- 2 ^ 63; 2 ^ 63 - 1; -1; 2 ^ 62; 5; 6; 7; 8].
+Proof. vm_compute. reflexivity. Qed.
+Example C10_ex_switch_ring : znx_switch_ring_avx 4 [9; 9; 9; 9] [- 2 ^ 63; 2 ^ 63 - 1; -1; 2 ^ 62; 5; 6; 7; 8] = [- 2 ^ 63; -1; 5; 7]
+  /\ znx_switch_ring_avx 12 (repeat 9 12) [- 2 ^ 63; 2 ^ 63 - 1; -1; 2 ^ 62] = znx_switch_ring 12 (repeat 9 12) [- 2 ^ 63; 2 ^ 63 - 1; -1; 2 ^ 62].
+Proof. vm_compute. split; reflexivity. Qed.
